@@ -19,11 +19,11 @@ use vcommon::{
 
 use crate::c12::{build_corpus, restore_stub, target_dir, write_corpus, Rng};
 
-pub const RULE: &str = "corpus = K generated interfaces (quick 40, thorough 300): 0..3 custom types \
+pub const RULE: &str = "corpus = K generated interfaces (quick 60, thorough 400): 0..3 custom types \
 (structs with fields over every type constructor to depth 2, enums), 1..4 methods with 0..3 inputs \
 and outputs, 0..3 errors; non-recursive, names collision-free after snake / Pascal conversion, \
 drawn from pools that contain acronyms (GetURL), digits (Get2FA), camelCase / snake_case / kebab \
-spellings and Rust keywords (type, self, move, match, try). Each interface text is parsed by zlink, \
+spellings and Rust keywords (type, self, move, match, try). plus 9 systematic interfaces (every wrapper shape over every base type as the only input, only output and only field). Each interface text is parsed by zlink, \
 turned into a Rust module by zlink_codegen::generate_interface, compiled with a harness-written \
 driver and run against a scripted socket. Oracle: the module compiles; for every method the frame \
 sent equals {method: '<interface>.<IDL name>', parameters: {IDL parameter names: JSON of the \
@@ -76,25 +76,52 @@ fn pick_unique(rng: &mut Rng, pool: &[&str], used: &mut BTreeSet<String>, key: i
 }
 
 fn gen_ty(rng: &mut Rng, depth: u32, customs: &[String]) -> Ty {
-    let leaf = |rng: &mut Rng| match rng.below(8) {
-        0 => Ty::Bool,
-        1 | 2 => Ty::Int,
-        3 => Ty::Float,
-        4 | 5 => Ty::Str,
-        6 => Ty::Object,
-        _ => {
-            if customs.is_empty() {
-                Ty::Str
-            } else {
-                Ty::Custom(rng.pick(customs).clone())
+    // base types: primitives, custom types (weighted up when there are any), inline struct / enum
+    fn base(rng: &mut Rng, customs: &[String]) -> Ty {
+        match rng.below(14) {
+            0 => Ty::Bool,
+            1 | 2 => Ty::Int,
+            3 => Ty::Float,
+            4 | 5 => Ty::Str,
+            6 => Ty::Object,
+            7..=9 if !customs.is_empty() => Ty::Custom(rng.pick(customs).clone()),
+            10 | 11 => {
+                let mut used = BTreeSet::new();
+                let n = 1 + rng.below(3);
+                let mut v = Vec::new();
+                for _ in 0..n {
+                    if let Some(name) = pick_unique(rng, VARIANT_NAMES, &mut used, |s| s.to_pascal_case()) {
+                        v.push(Var { name, comments: vec![] });
+                    }
+                }
+                Ty::Enum(v)
             }
+            12 => {
+                let mut used = BTreeSet::new();
+                let n = 1 + rng.below(2);
+                let mut f = Vec::new();
+                for _ in 0..n {
+                    if let Some(name) = pick_unique(rng, FIELD_NAMES, &mut used, |s| s.to_snake_case()) {
+                        let ty = match rng.below(4) {
+                            0 => Ty::Int,
+                            1 => Ty::Str,
+                            2 => Ty::Bool,
+                            _ => Ty::Float,
+                        };
+                        f.push(Fld { name, ty, comments: vec![] });
+                    }
+                }
+                Ty::Struct(f)
+            }
+            _ => Ty::Str,
         }
-    };
-    if depth == 0 || rng.chance(50) {
-        return leaf(rng);
     }
-    match rng.below(7) {
-        0 | 1 => {
+    if depth == 0 {
+        return base(rng, customs);
+    }
+    match rng.below(10) {
+        0..=3 => base(rng, customs),
+        4 | 5 => {
             let inner = gen_ty(rng, depth - 1, customs);
             if matches!(inner, Ty::Opt(_)) {
                 inner
@@ -102,31 +129,9 @@ fn gen_ty(rng: &mut Rng, depth: u32, customs: &[String]) -> Ty {
                 Ty::Opt(Box::new(inner))
             }
         }
-        2 | 3 => Ty::Arr(Box::new(gen_ty(rng, depth - 1, customs))),
-        4 => Ty::Map(Box::new(gen_ty(rng, depth - 1, customs))),
-        5 => {
-            // inline struct
-            let mut used = BTreeSet::new();
-            let n = 1 + rng.below(2);
-            let mut f = Vec::new();
-            for _ in 0..n {
-                if let Some(name) = pick_unique(rng, FIELD_NAMES, &mut used, |s| s.to_snake_case()) {
-                    f.push(Fld { name, ty: leaf(rng), comments: vec![] });
-                }
-            }
-            Ty::Struct(f)
-        }
-        _ => {
-            let mut used = BTreeSet::new();
-            let n = 1 + rng.below(3);
-            let mut v = Vec::new();
-            for _ in 0..n {
-                if let Some(name) = pick_unique(rng, VARIANT_NAMES, &mut used, |s| s.to_pascal_case()) {
-                    v.push(Var { name, comments: vec![] });
-                }
-            }
-            Ty::Enum(v)
-        }
+        6 | 7 => Ty::Arr(Box::new(gen_ty(rng, depth - 1, customs))),
+        8 => Ty::Map(Box::new(gen_ty(rng, depth - 1, customs))),
+        _ => base(rng, customs),
     }
 }
 
@@ -191,6 +196,54 @@ pub fn gen_iface(idx: usize, rng: &mut Rng) -> Iface {
         members.push(Member::Error { name: en, fields, comments: vec![] });
     }
     Iface { name, members, comments: vec![] }
+}
+
+/// Systematic interfaces: every wrapper shape (none, ?, [], [string], ?[], [][], [string][], []?,
+/// [][string]) over every base type (string, int, object, inline enum, inline struct, custom
+/// struct, custom enum with non-snake values) as the *only* input of a method, the *only* output
+/// of a method, and the only field of a custom type - shapes whose handling (borrowing, lifetimes,
+/// renames) can depend on nothing else being in the same struct.
+pub fn systematic_ifaces(first_idx: usize) -> Vec<(usize, Iface)> {
+    let bases: Vec<(&str, Ty)> = vec![
+        ("Str", Ty::Str),
+        ("Int", Ty::Int),
+        ("Obj", Ty::Object),
+        ("Enum", Ty::Enum(vec![Var { name: "ro".into(), comments: vec![] }, Var { name: "readWrite".into(), comments: vec![] }])),
+        ("Struct", Ty::Struct(vec![Fld { name: "type".into(), ty: Ty::Str, comments: vec![] }, Fld { name: "maxLen".into(), ty: Ty::Int, comments: vec![] }])),
+        ("Custom", Ty::Custom("URLEntry".into())),
+        ("CustomEnum", Ty::Custom("IPKind".into())),
+    ];
+    let wrappers: Vec<(&str, fn(Ty) -> Ty)> = vec![
+        ("Plain", |t| t),
+        ("Opt", |t| Ty::Opt(Box::new(t))),
+        ("Arr", |t| Ty::Arr(Box::new(t))),
+        ("Map", |t| Ty::Map(Box::new(t))),
+        ("OptArr", |t| Ty::Opt(Box::new(Ty::Arr(Box::new(t))))),
+        ("ArrArr", |t| Ty::Arr(Box::new(Ty::Arr(Box::new(t))))),
+        ("MapArr", |t| Ty::Map(Box::new(Ty::Arr(Box::new(t))))),
+        ("ArrOpt", |t| Ty::Arr(Box::new(Ty::Opt(Box::new(t))))),
+        ("ArrMap", |t| Ty::Arr(Box::new(Ty::Map(Box::new(t))))),
+    ];
+    let mut out = Vec::new();
+    for (wi, (wname, w)) in wrappers.iter().enumerate() {
+        let mut members = vec![
+            Member::Type {
+                name: "URLEntry".into(),
+                body: Body::Struct(vec![Fld { name: "URL".into(), ty: Ty::Str, comments: vec![] }, Fld { name: "self".into(), ty: Ty::Opt(Box::new(Ty::Int)), comments: vec![] }]),
+                comments: vec![],
+            },
+            Member::Type { name: "IPKind".into(), body: Body::Enum(vec![Var { name: "IPv4".into(), comments: vec![] }, Var { name: "v6_only".into(), comments: vec![] }]), comments: vec![] },
+        ];
+        for (bname, b) in &bases {
+            let t = w(b.clone());
+            members.push(Member::Type { name: format!("Holder{bname}"), body: Body::Struct(vec![Fld { name: "theValue".into(), ty: t.clone(), comments: vec![] }]), comments: vec![] });
+            members.push(Member::Method { name: format!("In{bname}"), inputs: vec![Fld { name: "theValue".into(), ty: t.clone(), comments: vec![] }], outputs: vec![], comments: vec![] });
+            members.push(Member::Method { name: format!("Out{bname}"), inputs: vec![], outputs: vec![Fld { name: "theValue".into(), ty: t.clone(), comments: vec![] }], comments: vec![] });
+        }
+        members.push(Member::Error { name: "Failed".into(), fields: vec![Fld { name: "theValue".into(), ty: w(Ty::Str), comments: vec![] }], comments: vec![] });
+        out.push((first_idx + wi, Iface { name: format!("org.gen.sys.{wname}"), members, comments: vec![] }));
+    }
+    out
 }
 
 // ---------------------------------------------------------------------------------------------
@@ -414,13 +467,20 @@ fn strip_nulls_none(v: &Value) -> Value {
 }
 
 pub fn run(ctx: &Ctx) -> i32 {
-    let n = ctx.tier.pick(40usize, 300);
+    let n = ctx.tier.pick(60usize, 400);
     let mut rng = Rng::new(ctx.subseed("corpus15", 0));
     let mut stats = Stats::default();
     let mut viol: Vec<Violation> = Vec::new();
     let mut units = Vec::new();
     for i in 0..n {
         match gen_unit(i, &mut rng) {
+            Ok(u) => units.push(u),
+            Err(e) => viol.push(Violation { sig: "codegen-or-parse-failed".into(), lane: "generate".into(), case: json!({"kind": "generate", "error": e}), message: e }),
+        }
+    }
+    for (idx, iface) in systematic_ifaces(n) {
+        stats.class("systematic-interface");
+        match build_unit(idx, iface) {
             Ok(u) => units.push(u),
             Err(e) => viol.push(Violation { sig: "codegen-or-parse-failed".into(), lane: "generate".into(), case: json!({"kind": "generate", "error": e}), message: e }),
         }
